@@ -14,6 +14,7 @@ import math
 import mpmath as mp
 
 from .. import pool, rb
+from ..common import nanmax
 
 LEVEL = "exploration"
 U = 2.0 ** -53
@@ -104,7 +105,7 @@ class Anomaly:
         else:
             res = em * mp.sinh(Em) - Em - Mm
             tol = 64 * U * (1 + abs(M) + abs(e * math.sinh(E)) if abs(E) < 700 else float("inf"))
-        if abs(res) > tol:
+        if not (abs(res) <= tol):
             V.append(("anomaly:kepler-equation:%s" % cls, "reb_M_to_E(e=%r, M=%r) = %r violates Kepler's equation by %.3g" % (e, M, E, float(res))))
         # E -> f against the defining relation
         f = cl.reb_E_to_f(e, E)
@@ -121,7 +122,7 @@ class Anomaly:
         d = mp.mpf(f) - want
         d = d - 2 * mp.pi * mp.nint(d / (2 * mp.pi))
         cond = 1 + 1 / abs(1 - e) ** 0.5 + (abs(e) / abs(1 - e)) ** 0.5
-        if abs(d) > 256 * U * cond * (1 + abs(E) if e < 1 else 1):
+        if not (abs(d) <= 256 * U * cond * (1 + abs(E) if e < 1 else 1)):
             V.append(("anomaly:E_to_f:%s" % cls, "reb_E_to_f(e=%r, E=%r) = %r, the defining relation gives %r" % (e, E, f, float(want % (2 * mp.pi)))))
         if not (0 <= f < TWO_PI * (1 + 4 * U)):
             V.append(("anomaly:E_to_f:range", "reb_E_to_f(e=%r, E=%r) = %r outside [0,2pi)" % (e, E, f)))
@@ -241,7 +242,7 @@ class Elements:
         asym = 1 + (e / max(abs(1 + e * math.cos(fref)), 1e-300) if e > 1 else 0.0)
         for k in range(6):
             tol = 16 * float(D[k]) + 64 * U * (spos if k < 3 else svel) * ecc_amp * asym
-            if abs(got[k] - float(ref[k])) > tol:
+            if not (abs(got[k] - float(ref[k])) <= tol):
                 V.append(("elements:to-cartesian:%s:%s" % (cls, akind), "component %d: got %r, the textbook map gives %r (tolerance %.3g) [%s]" % (k, got[k], float(ref[k]), tol, tag)))
                 break
         # ---- Cartesian -> elements
@@ -271,7 +272,7 @@ class Elements:
         cf = 1 + vals["e"] / max(abs(1 + vals["e"] * math.cos(vals["f"])), 1e-300)
         for k in range(6):
             tol = (64 * float(D[k]) + 4096 * U * (spos if k < 3 else svel)) * ecc_cond + SQ * (spos if k < 3 else svel) * cf * 4
-            if abs(float(rec[k]) - got[k]) > tol:
+            if not (abs(float(rec[k]) - got[k]) <= tol):
                 V.append(("orbit:does-not-reproduce-state:%s" % cls, "state rebuilt from the returned (a,e,inc,Omega,omega,f) differs in component %d: %r vs %r (tol %.3g); returned %s [%s]" % (
                     k, float(rec[k]), got[k], tol, {x: vals[x] for x in ("a", "e", "inc", "Omega", "omega", "f")}, tag)))
                 break
@@ -296,9 +297,9 @@ class Elements:
         for name, x, y in rel:
             if not angle_close(x, y, atol):
                 V.append(("orbit:relation:%s" % name, "%s violated: %r vs %r [%s]" % (name, x, y, tag)))
-        if abs(vals["n"] ** 2 * abs(vals["a"]) ** 3 - mu) > 1e-9 * mu * ecc_cond:
+        if not (abs(vals["n"] ** 2 * abs(vals["a"]) ** 3 - mu) <= 1e-9 * mu * ecc_cond):
             V.append(("orbit:relation:n2a3", "n^2 |a|^3 = %r, mu = %r [%s]" % (vals["n"] ** 2 * abs(vals["a"]) ** 3, mu, tag)))
-        if abs(vals["h"] ** 2 - mu * vals["a"] * (1 - vals["e"] ** 2)) > 1e-9 * vals["h"] ** 2 * ecc_cond:
+        if not (abs(vals["h"] ** 2 - mu * vals["a"] * (1 - vals["e"] ** 2)) <= 1e-9 * vals["h"] ** 2 * ecc_cond):
             V.append(("orbit:relation:h2", "h^2 = %r, mu a (1-e^2) = %r [%s]" % (vals["h"] ** 2, mu * vals["a"] * (1 - vals["e"] ** 2), tag)))
         if e < 1:
             # Kepler's equation between the returned M, e, f
@@ -315,13 +316,16 @@ class Elements:
             fr = vals["f"] if vals["f"] < math.pi else vals["f"] - TWO_PI
             H = 2 * math.atanh(math.sqrt((vals["e"] - 1) / (vals["e"] + 1)) * math.tan(fr / 2))
             Mh = vals["e"] * math.sinh(H) - H
-            if abs(abs(vals["n"]) * (sim.t - vals["T"]) - Mh) > (1e-8 * ecc_cond + 16 * math.sqrt(U) * cf * (1 + vals["e"])) * (1 + abs(Mh)):
+            if not (abs(abs(vals["n"]) * (sim.t - vals["T"]) - Mh) <= (1e-8 * ecc_cond + 16 * math.sqrt(U) * cf * (1 + vals["e"])) * (1 + abs(Mh))):
                 V.append(("orbit:relation:T-hyperbolic", "|n|(t-T) = %r, the hyperbolic Kepler equation for the returned e,f gives M = %r [%s]" % (abs(vals["n"]) * (sim.t - vals["T"]), Mh, tag)))
+            # the reported M itself: e sinh H - H, negative before pericentre (it is not an angle and must not be wrapped)
+            if not (abs(vals["M"] - Mh) <= (1e-8 * ecc_cond + 16 * math.sqrt(U) * cf * (1 + vals["e"])) * (1 + abs(Mh))):
+                V.append(("orbit:relation:M-hyperbolic", "returned M = %r, the hyperbolic Kepler equation for the returned e,f gives M = %r [%s]" % (vals["M"], Mh, tag)))
         # Pal definitions
         if not retro:     # for retrograde orbits REBOUND's pomega = Omega-omega, Pal's variables use Omega+omega: not compared
             want = (vals["e"] * math.sin(vals["pomega"]), vals["e"] * math.cos(vals["pomega"]), 2 * math.sin(vals["inc"] / 2) * math.cos(vals["Omega"]), 2 * math.sin(vals["inc"] / 2) * math.sin(vals["Omega"]))
             gotp = (vals["pal_h"], vals["pal_k"], vals["pal_ix"], vals["pal_iy"])
-            if max(abs(x - y) for x, y in zip(want, gotp)) > (1e-8 * ecc_cond + 16 * math.sqrt(U)) * (1 + vals["e"]):
+            if not (nanmax(abs(x - y) for x, y in zip(want, gotp)) <= (1e-8 * ecc_cond + 16 * math.sqrt(U)) * (1 + vals["e"])):
                 V.append(("orbit:relation:pal:%s" % ("retro" if retro else "pro"), "Pal (h,k,ix,iy) = %s, definitions give %s [%s]" % (gotp, want, tag)))
         return V, 1
 
@@ -331,7 +335,9 @@ NAMES = ["m", "x", "y", "z", "vx", "vy", "vz", "primary", "a", "P", "e", "inc", 
 DEFAULT = {"m": 1e-3, "x": 0.3, "y": -0.4, "z": 0.1, "vx": 0.05, "vy": 0.8, "vz": -0.02, "a": 1.3, "P": 7.0, "e": 0.2, "inc": 0.4, "Omega": 0.5, "omega": 0.6,
            "pomega": 1.2, "f": 0.7, "M": 0.8, "E": 0.9, "l": 1.0, "theta": 1.1, "T": 0.3, "h": 0.05, "k": 0.1, "ix": 0.02, "iy": 0.03, "r": 0.01}
 INVALID = [{"a": 1.3, "e": 1.0}, {"a": 1.3, "e": -0.1}, {"a": -1.3, "e": 0.5}, {"a": 1.3, "e": 1.5}, {"a": -1.3, "e": 1.5, "f": 2.5}, {"a": -1.3, "e": 1.5, "f": -2.5},
-           {"a": 1.3, "ix": 1.5, "iy": 1.5}, {"a": 1.3, "e": 0.2, "primary_mass": 0.0}, {"a": -2.0, "e": 3.0, "theta": 3.1}, {"P": 7.0, "e": 1.0}]
+           {"a": 1.3, "ix": 1.5, "iy": 1.5}, {"a": 1.3, "e": 0.2, "primary_mass": 0.0}, {"a": -2.0, "e": 3.0, "theta": 3.1}, {"P": 7.0, "e": 1.0},
+           # Pal eccentricity vector of length >= 1 (sqrt(1-h^2-k^2) in the constructor), also in one component only and exactly 1
+           {"a": 1.0, "h": 0.9, "k": 0.8}, {"a": 1.0, "h": 1.2}, {"a": 1.0, "k": -1.5, "ix": 0.1}, {"a": 1.0, "h": 0.6, "k": 0.8}, {"P": 7.0, "h": 1.0, "l": 0.3}]
 
 
 class FrontEnds:
